@@ -42,7 +42,7 @@ RULE = ("hierarchies = every C3-valid base assignment over <=4 classes in which 
         "the class under test and on bases; abstract declarations rebuilt through 7 front-end encodings (twins); "
         "kind of every user-supplied container (metadata dict / MappingProxyType over a kept dict / "
         "OrderedDict / user Mapping; validator list / tuple / and_ / list holding and_; converter list / "
-        "tuple / single; on_setattr list / tuple; these= dict / OrderedDict; make_class list / tuple / dict),"
+        "tuple / single; on_setattr list / tuple; these= dict / OrderedDict / MappingProxyType / UserDict / ChainMap / user Mapping (each with the attr.ib()s created in another order than inserted); make_class list / tuple / dict),"
         " each user-kept object mutated after class creation and every view re-read (fields, fields_dict, "
         "every class of the hierarchy, subclasses defined before and after the mutation; "
         "validators/converters/hooks are probed by calling them); an EMPTY these= ({} / OrderedDict(); make_class [] / () / {}) over a "
@@ -658,7 +658,7 @@ def base_cfg(rng, shape_bases, rich):
                         "val": rng.choice(["none", "none", "list", "tuple", "and", "list_and"]),
                         "conv": rng.choice(["none", "none", "list", "tuple", "single"]),
                         "osa": rng.choice(["none", "none", "list", "tuple"]),
-                        "these": rng.choice(["dict", "odict", "tuple"])}
+                        "these": rng.choice(["dict", "odict", "tuple", "proxy", "userdict", "chainmap", "mapping"])}
             pc["explicit_auto_false"] = rng.random() < 0.2
         per.append(pc)
     return {"bases": shape_bases, "per": per}
